@@ -18,6 +18,7 @@ EVID = os.path.join(ROOT, "evidence")
 REPLAYS = os.path.join(ROOT, "replays")
 KNOWN = os.path.join(ROOT, "known_findings.json")
 NCPU = int(os.environ.get("VERIF_JOBS", "16"))
+REPLAY_TIMEOUT = 120
 
 
 def new_result():
@@ -48,9 +49,18 @@ def _worker(modname, item, conn):
         mod = importlib.import_module(modname)
         res = mod.run_item(item)
         # replay candidates natively against the real code
+        import signal
+
+        def _alarm(signum, frame):
+            raise TimeoutError("native replay exceeded %ds" % REPLAY_TIMEOUT)
+        signal.signal(signal.SIGALRM, _alarm)
         for cex in res.get("candidates", []):
             try:
-                bad, detail = mod.replay(cex)
+                signal.alarm(REPLAY_TIMEOUT)
+                try:
+                    bad, detail = mod.replay(cex)
+                finally:
+                    signal.alarm(0)
             except Exception as ex:
                 bad, detail = False, "replay raised %s: %s" % (type(ex).__name__, ex)
                 res["inconclusive"].append("replay error: %s" % detail)
